@@ -331,6 +331,11 @@ func (e *Engine) loadField(p *Path, snap *Snap, obj, tkey, field string, ft type
 	}
 	v := e.unflatten(ft, &ts)
 	v.Own = &Owner{Obj: obj, TKey: tkey, Field: field}
+	if v.K == KSlice {
+		// representation invariant of the heap model: slices stored in struct fields start at offset 0
+		// (checked at every store into a field, see Exec.step Store)
+		v.Off = "0"
+	}
 	return v
 }
 
